@@ -371,27 +371,25 @@ rc::Gen<scase_t> gen_case(const family_t family)
 // ---- mechanism predicate of finding F13 (ellipsoid: convergence decided by rounding noise) ------------
 // The shape matrix H of the ellipsoid method is re-built along the trajectory the library actually took (the
 // points, values and sub-gradients it was shown, in call order) with the deep-cut update of src/solver/ellipsoid.cpp,
-// once in long double and once in double. Reported are the two quantities the library compares with its thresholds
-// when it stops: sqrt(g'Hg) of the last update and at the current point. The mechanism is present when, in long
-// double, both are well above epsilon (the stopping criterion is not met) AND the double-precision replay of the very
-// same recurrence cannot reproduce them (g'Hg off by more than half, negative or not finite): the value the
-// library tests is rounding noise. A wrong stopping rule or a wrong update formula does not match: both replays
-// then agree with each other.
+// once in long double and once in double. Each replay either completes - and yields the two quantities the library
+// compares with its thresholds when it stops, g'Hg of the last update and at the current point - or breaks down at
+// some step (g'Hg <= 0 or not finite; impossible in exact arithmetic, where H stays positive definite).
+// The mechanism is present when the outcome depends on the precision: the two replays break down at different steps,
+// only one of them breaks down, or their g'Hg differ by more than half - and the long double replay does not show
+// that the stopping criterion is genuinely met. A wrong stopping rule or a wrong update formula does not match: both
+// replays then agree with each other (same values, or the same break-down step with the same value).
 struct shape_replay_t
 {
-    bool        valid{false};
-    long double last_update{0.0L}; // g'Hg used for the last update (test `sqrt(gHg) < epsilon`)
+    bool        completed{false};
+    size_t      broke_at{0};       // step at which g'Hg stopped being positive (when not completed)
+    long double last_update{0.0L}; // g'Hg used for the last update (test `sqrt(gHg) < epsilon`), or at the break-down
     long double current{0.0L};     // g'Hg at the last evaluated point (test `gHg < machine epsilon`)
 };
 
 template <class treal>
 shape_replay_t replay_shape(const std::vector<counted_t::eval_t>& history, const int n, const double R)
 {
-    shape_replay_t out;
-    if (n < 2 || history.size() < 2)
-    {
-        return out;
-    }
+    shape_replay_t     out;
     const auto         N  = static_cast<size_t>(n);
     const treal        ln = static_cast<treal>(n);
     std::vector<treal> H(N * N, treal(0)), Hg(N);
@@ -416,11 +414,12 @@ shape_replay_t replay_shape(const std::vector<counted_t::eval_t>& history, const
     treal best = static_cast<treal>(history[0].f);
     for (size_t k = 0; k + 1 < history.size(); ++k)
     {
-        const auto gHg = quad(history[k].g);
+        const auto gHg  = quad(history[k].g);
         out.last_update = static_cast<long double>(gHg);
         if (!(gHg > treal(0)) || !std::isfinite(static_cast<double>(gHg)))
         {
-            return out; // (valid stays false: the recurrence broke down in this precision)
+            out.broke_at = k;
+            return out;
         }
         const auto alpha = (static_cast<treal>(history[k].f) - best) / std::sqrt(gHg);
         const auto scale = (ln * ln) / (ln * ln - treal(1)) * (treal(1) - alpha * alpha);
@@ -436,34 +435,35 @@ shape_replay_t replay_shape(const std::vector<counted_t::eval_t>& history, const
     }
     const auto gHg = quad(history.back().g);
     out.current    = static_cast<long double>(gHg);
-    out.valid      = std::isfinite(static_cast<double>(gHg));
+    out.completed  = std::isfinite(static_cast<double>(gHg));
+    out.broke_at   = history.size();
     return out;
 }
 
 struct cancellation_t
 {
-    bool        present{false};
-    long double exact_last{0.0L}, exact_current{0.0L}; // sqrt(g'Hg) in long double
-    long double double_last{0.0L}, double_current{0.0L}; // g'Hg of the double replay (may be negative)
+    bool           present{false};
+    shape_replay_t exact, rough;
 };
 
 cancellation_t shape_cancellation(const std::vector<counted_t::eval_t>& history, const int n, const double R, const double epsilon)
 {
     cancellation_t out;
-    const auto     exact = replay_shape<long double>(history, n, R);
-    if (!exact.valid || !(exact.last_update > 0.0L) || !(exact.current > 0.0L))
+    if (n < 2 || history.size() < 2)
     {
         return out;
     }
-    out.exact_last    = std::sqrt(exact.last_update);
-    out.exact_current = std::sqrt(exact.current);
-    const auto rough  = replay_shape<double>(history, n, R);
-    out.double_last    = rough.last_update;
-    out.double_current = rough.current;
-    const auto off     = [](const long double approx, const long double reference)
-    { return !std::isfinite(static_cast<double>(approx)) || std::fabs(approx - reference) > 0.5L * reference; };
-    const auto unmet   = out.exact_last > 2.0L * static_cast<long double>(epsilon) && out.exact_current > 2.0L * static_cast<long double>(epsilon);
-    out.present        = unmet && (!rough.valid || off(rough.last_update, exact.last_update) || off(rough.current, exact.current));
+    out.exact = replay_shape<long double>(history, n, R);
+    out.rough = replay_shape<double>(history, n, R);
+
+    const auto close = [](const long double a, const long double b)
+    { return std::isfinite(static_cast<double>(a)) && std::isfinite(static_cast<double>(b)) && std::fabs(a - b) <= 0.5L * std::max(std::fabs(a), std::fabs(b)); };
+    const auto threshold = 4.0L * static_cast<long double>(epsilon) * static_cast<long double>(epsilon); // (2 eps)^2
+    const auto met       = out.exact.completed && (out.exact.last_update <= threshold || out.exact.current <= threshold);
+    const auto agree     = out.exact.completed == out.rough.completed && out.exact.broke_at == out.rough.broke_at &&
+                       close(out.exact.last_update, out.rough.last_update) &&
+                       (!out.exact.completed || close(out.exact.current, out.rough.current));
+    out.present = !met && !agree;
     return out;
 }
 
@@ -681,11 +681,14 @@ verdict_t check_case(const scase_t& c, ctx_t& ctx)
             const auto shape = shape_cancellation(function.history(), c.n, c.radius, c.epsilon);
             if (shape.present)
             {
+                const auto show = [](const shape_replay_t& r)
+                {
+                    return r.completed ? cat("g'Hg last update ", static_cast<double>(r.last_update), ", current ", static_cast<double>(r.current))
+                                       : cat("broke down at step ", r.broke_at, " with g'Hg ", static_cast<double>(r.last_update));
+                };
                 return verdict_t::known("C03/converged-not-optimal/ellipsoid/shape-matrix-cancellation",
-                                        cat("f(x)-f*=", static_cast<double>(ref.gap), " bound=", static_cast<double>(bound),
-                                            " sqrt(g'Hg) replayed in long double: last update ", static_cast<double>(shape.exact_last),
-                                            ", current ", static_cast<double>(shape.exact_current), "; g'Hg replayed in double: ",
-                                            static_cast<double>(shape.double_last), ", ", static_cast<double>(shape.double_current), "; ", info()));
+                                        cat("f(x)-f*=", static_cast<double>(ref.gap), " bound=", static_cast<double>(bound), " eps^2=", c.epsilon * c.epsilon,
+                                            "; replay of H in long double: ", show(shape.exact), "; in double: ", show(shape.rough), "; ", info()));
             }
         }
         if (ratio > 10.0)
